@@ -62,8 +62,10 @@ def main(argv=None):
         with open(a.stats, "w") as fh:
             json.dump(d, fh)
 
+    strat = (getattr(mod, "FUZZ", {}).get(a.part) or part.strategy)("quick")
+
     @settings(database=None, deadline=None, suppress_health_check=list(HealthCheck))
-    @given(part.strategy("quick"))
+    @given(strat)
     def body(case):
         out = part.evaluate(case)
         st["cases"] += 1
